@@ -595,7 +595,7 @@ def get_vect_dim(observation: NumpyObsType, observation_space: spaces.Space) -> 
     elif isinstance(observation_space, spaces.MultiBinary):
         return (
             observation.shape[0]
-            if len(observation.shape) > observation_space.shape
+            if len(observation.shape) > len(observation_space.shape)
             else 1
         )
     else:
